@@ -898,7 +898,7 @@ def _check(rep, pid, tier):
                 if c is not None:
                     corrupted.append((i, c[0], c[1]))
                     break
-    stv, bad = ftable.validate_records("SysOrderRec.tla", ftable.REC_CFG, recs + [c[1] for c in corrupted], sc.rec("rec"), chunk=400 if thorough else 1000)
+    stv, bad = ftable.validate_records("SysOrderRec.tla", cfg({}, ["Report"], spec="RecSpec"), recs + [c[1] for c in corrupted], sc.rec("rec"), chunk=400 if thorough else 1000)
     bad_c = {j: bad.pop(len(recs) + j, []) for j in range(len(corrupted))}
     stv["distinct"] -= len(corrupted)
     stv["generated"] -= 2 * len(corrupted)
